@@ -248,7 +248,9 @@ fn work_cap_case<K: Kit>(sc: &Scenario, seq: &[u8], rep: &mut Report) {
     let run = guarded(|| {
         let mut rig = Rig::<K>::new(sc, true);
         // generous: a planner discretising at L/1000 with 20 motions per iteration stays below it
-        seams::set_valid_cap(1_000_000 * d.max(1));
+        // (degenerate-step jobs: a handful of queries per iteration is all a sane planner needs)
+        let cap = if sc.tag.contains("/step") { 5_000 * d.max(1) } else { 1_000_000 * d.max(1) };
+        seams::set_valid_cap(cap);
         if rig.is_prm() {
             let _ = rig.construct(seq);
             seams::set_valid_cap(1_000_000 * d.max(1));
@@ -490,6 +492,16 @@ fn jobs(tier: &str) -> Vec<Job> {
                 let mut sc = b.scenario(b.world_named("subset0001", vec![b.obstacles[0].clone()]), b.params(pk, if pk == Pk::Prm { 1.6 } else { 1.0 }, 2.5, 0.0), &format!("C06/workcap/{kit}/frac{f}/{}", pk.name()));
                 sc.spec = spec;
                 out.push(Job { sc, part: 2, letters: b.sub3.clone(), depth: 2 });
+            }
+            // (2') degenerate extension steps (0, below the resolution of the coordinates, negative): an
+            // iteration that makes no progress is still one iteration, and the deadline is still consulted
+            if pk != Pk::Prm {
+                for sm in [0.0, 1e-18, -0.5] {
+                    for w in [b.world_free(), b.world_named("subset0001", vec![b.obstacles[0].clone()])] {
+                        let sc = b.scenario(w.clone(), b.params(pk, sm, 2.5, 0.0), &format!("C06/workcap/{kit}/{}/step{sm}/{}", w.name, pk.name()));
+                        out.push(Job { sc, part: 2, letters: b.sub3.clone(), depth: 3 });
+                    }
+                }
             }
             // (3') a goal sampler that can never deliver (fails at every call from its k-th on): the call
             // must come back with an error, not keep asking
